@@ -218,15 +218,28 @@ func checkValidateBeforeWrite(p *Prog, r *Report) {
 		for _, w := range writes {
 			key := sp.fn + ":" + p.describe(w)
 			// (a) non-empty name
+			nameTest := func(ef edgeFact, isNew func(ssa.Value) bool) bool {
+				if bo, ok := ef.Cond.(*ssa.BinOp); ok && (bo.Op == token.EQL || bo.Op == token.NEQ) {
+					for _, pr := range [][2]ssa.Value{{bo.X, bo.Y}, {bo.Y, bo.X}} {
+						if s, ok := constString(pr[1]); ok && s == "" && (bo.Op == token.NEQ) == ef.Truth {
+							if base, _, ok := readsField(pr[0], sp.nameField); ok && isNew(base) {
+								return true
+							}
+						}
+					}
+				}
+				return false
+			}
+			isNewHere := func(base ssa.Value) bool { return base == ssa.Value(newElem) || isSpillOf(base, newElem) }
 			okName := mustPassEdge(f, w.Block(), func(cond ssa.Value, truth bool) bool {
 				for _, ef := range expandFacts([]edgeFact{{Cond: cond, Truth: truth}}) {
-					if bo, ok := ef.Cond.(*ssa.BinOp); ok && (bo.Op == token.EQL || bo.Op == token.NEQ) {
-						for _, pr := range [][2]ssa.Value{{bo.X, bo.Y}, {bo.Y, bo.X}} {
-							if s, ok := constString(pr[1]); ok && s == "" && (bo.Op == token.NEQ) == ef.Truth {
-								if base, _, ok := readsField(pr[0], sp.nameField); ok && (base == ssa.Value(newElem) || isSpillOf(base, newElem)) {
-									return true
-								}
-							}
+					if nameTest(ef, isNewHere) {
+						return true
+					}
+					// the tests may live in a validation helper whose error was found nil
+					for _, vf := range validatorFacts(ef, newElem) {
+						if nameTest(vf.fact, vf.isNew) {
+							return true
 						}
 					}
 				}
@@ -236,17 +249,28 @@ func checkValidateBeforeWrite(p *Prog, r *Report) {
 			// (b) kind / target
 			switch sp.extra {
 			case "kind":
-				ok := mustPassEdge(f, w.Block(), func(cond ssa.Value, truth bool) bool {
-					for _, ef := range expandFacts([]edgeFact{{Cond: cond, Truth: truth}}) {
-						if bo, ok := ef.Cond.(*ssa.BinOp); ok && (bo.Op == token.EQL || bo.Op == token.NEQ) {
-							for _, pr := range [][2]ssa.Value{{bo.X, bo.Y}, {bo.Y, bo.X}} {
-								if s, ok := constString(pr[1]); ok && s == "" && (bo.Op == token.NEQ) == ef.Truth {
-									if c, _ := callOf(pr[0]); c != nil {
-										if sc := c.Common().StaticCallee(); sc != nil && sc.Name() == "GetAttrTypeString" {
-											return true
-										}
+				kindTest := func(ef edgeFact) bool {
+					if bo, ok := ef.Cond.(*ssa.BinOp); ok && (bo.Op == token.EQL || bo.Op == token.NEQ) {
+						for _, pr := range [][2]ssa.Value{{bo.X, bo.Y}, {bo.Y, bo.X}} {
+							if s, ok := constString(pr[1]); ok && s == "" && (bo.Op == token.NEQ) == ef.Truth {
+								if c, _ := callOf(pr[0]); c != nil {
+									if sc := c.Common().StaticCallee(); sc != nil && sc.Name() == "GetAttrTypeString" {
+										return true
 									}
 								}
+							}
+						}
+					}
+					return false
+				}
+				ok := mustPassEdge(f, w.Block(), func(cond ssa.Value, truth bool) bool {
+					for _, ef := range expandFacts([]edgeFact{{Cond: cond, Truth: truth}}) {
+						if kindTest(ef) {
+							return true
+						}
+						for _, vf := range validatorFacts(ef, newElem) {
+							if kindTest(vf.fact) {
+								return true
 							}
 						}
 					}
@@ -500,7 +524,7 @@ func checkRemoveExact(p *Prog, r *Report, pc *panicChecker) {
 				"the edit is applied to a type other than the one whose Name was compared with the argument")
 		})
 	}
-	r.floor("removal/delegation sites", n, 7)
+	r.floor("removal/delegation sites", n, 4)
 }
 
 // checkTwoWayApplies: every successful return of AddTwoWayRel lies behind two
@@ -703,4 +727,85 @@ func checkTwoWayLookupsIndependent(p *Prog, r *Report) {
 		}
 	}
 	r.count("type lookups in AddTwoWayRel", n) // the lookups may be delegated to a helper; nothing to decide then
+}
+
+type validatorFact struct {
+	fact  edgeFact
+	isNew func(ssa.Value) bool
+}
+
+// validatorFacts: when ef says that the error returned by a small validation
+// helper g(…newElem…) is nil, the branch outcomes that hold on every nil-error
+// return of g, together with a test for "this value is g's view of the new
+// element".
+func validatorFacts(ef edgeFact, newElem *ssa.Parameter) []validatorFact {
+	bo, ok := ef.Cond.(*ssa.BinOp)
+	if !ok || (bo.Op != token.EQL && bo.Op != token.NEQ) {
+		return nil
+	}
+	var errv ssa.Value
+	switch {
+	case isNilConst(bo.Y):
+		errv = bo.X
+	case isNilConst(bo.X):
+		errv = bo.Y
+	default:
+		return nil
+	}
+	if (bo.Op == token.EQL) != ef.Truth {
+		return nil // the error is non-nil on this edge
+	}
+	c, _ := callOf(errv)
+	if c == nil {
+		return nil
+	}
+	g := c.Common().StaticCallee()
+	if g == nil || !smallHelper(g) || g.Signature.Results().Len() != 1 {
+		return nil
+	}
+	// which parameter of g is the new element
+	pi := -1
+	for i, a := range c.Common().Args {
+		if a == ssa.Value(newElem) {
+			pi = i
+		}
+		if ld, ok := a.(*ssa.UnOp); ok && ld.Op == token.MUL && isSpillOf(ld.X, newElem) {
+			pi = i
+		}
+	}
+	if pi < 0 || pi >= len(g.Params) {
+		return nil
+	}
+	gp := g.Params[pi]
+	isNew := func(base ssa.Value) bool { return base == ssa.Value(gp) || isSpillOf(base, gp) }
+	// intersection over the returns that yield nil
+	type key struct {
+		c ssa.Value
+		t bool
+	}
+	var common map[key]edgeFact
+	for _, b := range g.Blocks {
+		ret, ok := b.Instrs[len(b.Instrs)-1].(*ssa.Return)
+		if !ok || len(ret.Results) != 1 || !isNilConst(ret.Results[0]) {
+			continue
+		}
+		cur := map[key]edgeFact{}
+		for _, f2 := range expandFacts(factsAt(b)) {
+			cur[key{f2.Cond, f2.Truth}] = f2
+		}
+		if common == nil {
+			common = cur
+			continue
+		}
+		for k := range common {
+			if _, ok := cur[k]; !ok {
+				delete(common, k)
+			}
+		}
+	}
+	var out []validatorFact
+	for _, f2 := range common {
+		out = append(out, validatorFact{f2, isNew})
+	}
+	return out
 }
